@@ -2,6 +2,7 @@ import PhyloModel.Arena.PruneBTop
 import PhyloModel.Arena.Compress3
 import PhyloModel.Arena.Group3
 import PhyloModel.Arena.Fuel
+import PhyloModel.Arena.OneRoot
 /-! # C03 — the arena stays one consistent rooted tree under every edit history
 
 Property theorems only (helper lemmas live in `PhyloModel/Arena`).  `AR.Inv` is the arena invariant of the
@@ -52,6 +53,46 @@ theorem fuel_irrelevant (f g : Nat) (hfg : f ≤ g) (a : Arena) (x d : Nat) (a' 
     (resetF f a x d = some a' → resetF g a x d = some a') ∧
     (pruneF f a x = some a' → pruneF g a x = some a') :=
   ⟨resetF_mono f g hfg a x d a', pruneF_mono f g hfg a x a'⟩
+
+/-- **every operation**: each public construction or editing operation of the executable model, with
+    arbitrary arguments (node ids that are removed, out of range, not siblings, …), maps an arena satisfying
+    the invariant (with blank tombstones) to one satisfying it, and never exhausts the recursion fuel the
+    executable model supplies — so the model's outcome is the operation's outcome, not an artefact of fuel. -/
+theorem every_operation_preserves (a : Arena) (op : Op) (g : Good a) :
+    Good (applyOp a op).1 ∧ (applyOp a op).2 ≠ .diverge :=
+  applyOp_good op g
+
+/-- **every history**: after any sequence of operations from the empty arena the invariant holds: every
+    live non-root node is listed exactly once (`nodup`) by the live node it names as parent, children and
+    parents are live, both records of a branch length agree, depths count edges. -/
+theorem every_history (ops : List Op) : Inv (runOps #[] ops) ∧ Tomb (runOps #[] ops) :=
+  runOps_good ops empty_good
+
+/-- the depth stored for a live node after any history is its number of edges to the root: its chain of
+    ancestors has exactly `depth + 1` nodes -/
+theorem depth_counts_edges (ops : List Op) (x : Nat) (hl : live (runOps #[] ops) x) :
+    ∃ l, Path (runOps #[] ops) l x ∧ l.length = (nd (runOps #[] ops) x).depth + 1 :=
+  depth_is_edges_to_root (every_history ops).1 x hl
+
+/-- **exactly one rooted tree**: along any history whose `add` calls (the only operation that creates a
+    parentless node) happen on an arena without a live root, the live nodes always form one rooted tree:
+    one parentless live node, returned by `get_root`, with every live node below it. -/
+theorem one_rooted_tree (ops : List Op) (hadm : AdmissibleRun #[] ops) (x : Nat) (hl : live (runOps #[] ops) x) :
+    ∃ t, isRoot (runOps #[] ops) t ∧ getRoot (runOps #[] ops) = some t ∧
+      (∀ t', isRoot (runOps #[] ops) t' → t' = t) ∧ ∀ y, live (runOps #[] ops) y → ∃ k, BelowK (runOps #[] ops) t y k := by
+  have h0 : AtMostOneRoot (#[] : Arena) := fun i _ hi _ => absurd hi.1.1 (by simp)
+  obtain ⟨g, h1⟩ := runOps_oneRoot ops empty_good h0 hadm
+  exact one_tree g h1 x hl
+
+/-- no operation other than `add` ever creates a parentless live node -/
+theorem no_new_root (a : Arena) (op : Op) (g : Good a) (h1 : AtMostOneRoot a) (hadm : Admissible a op) :
+    AtMostOneRoot (applyOp a op).1 :=
+  applyOp_oneRoot op g h1 hadm
+
+/-- non-vacuity: an admissible history with an accepted and a refused call; the Boolean form of the
+    invariant evaluates to true on its result -/
+example : checkInv (runOps #[] [.add none, .addChild 0 (some 3) none, .addChild 0 none (some "x"),
+    .addChild 7 none none, .merge 1 2 (some 1) (some 2) none none, .prune 1, .compress]) = true := by decide
 
 /-- non-vacuity: a concrete three-node arena satisfies the invariant's Boolean form -/
 example : checkInv ((addChildNamed (addChildNamed (add #[] none).1 0 (some 3) none).1 0 none (some "x")).1) = true := by
